@@ -208,6 +208,8 @@ def probeExpect (cfg : Cfg) (tls : Bool) (line : Bytes) (r : Reply) : List Strin
 structure M10 where
   tls : Bool := false           -- TLS state of the most recent session
   seenTls : Bool := false
+  greeted : Bool := false       -- the greeting (the first reply) has been written
+  upgraded : Bool := false      -- a later 220 has been written: STARTTLS was accepted, what follows travels inside TLS
 deriving Repr, DecidableEq, Inhabited
 
 def step10 (cfg : Cfg) (implicit : Bool) (m : M10) (e : Ev) : Except String M10 :=
@@ -216,10 +218,11 @@ def step10 (cfg : Cfg) (implicit : Bool) (m : M10) (e : Ev) : Except String M10 
     if m.seenTls && !tls then .error "C10 a session created after the upgrade does not see TLS"
     else if implicit && !tls then .error "C10 implicit TLS connection reported as plaintext"
     else if !tls && !cfg.tlsAvail && false then .ok m
-    else if containsSub helo "inj".b then .error "C10 injected plaintext executed (greeting)"
-    else .ok (if r == .ok then { tls := tls, seenTls := m.seenTls || tls } else { m with seenTls := m.seenTls || tls })
+    else if m.upgraded && containsSub helo "inj".b then .error "C10 injected plaintext executed (greeting)"
+    else .ok (if r == .ok then { m with tls := tls, seenTls := m.seenTls || tls } else { m with seenTls := m.seenTls || tls })
   | .mail _ a _ _ | .rcpt _ a _ _ =>
-    if containsSub a "inj".b then .error "C10 plaintext pipelined behind STARTTLS was executed inside TLS" else .ok m
+    -- (when STARTTLS was not accepted — refused, or swallowed as a SASL response — what follows it is ordinary plaintext)
+    if m.upgraded && containsSub a "inj".b then .error "C10 plaintext pipelined behind STARTTLS was executed inside TLS" else .ok m
   | .w bs =>
     match parse bs with
     | none => .ok m
@@ -227,7 +230,10 @@ def step10 (cfg : Cfg) (implicit : Bool) (m : M10) (e : Ev) : Except String M10 
       let bad := rs.any fun r => isEhloReply r && r.lines.length > 1 &&
         (((capLines r).contains "STARTTLS".b) != (cfg.tlsAvail && !m.tls) ||
          ((capLines r).contains "REQUIRETLS".b) != (m.tls && cfg.reqtls))
-      if bad then .error "C10 STARTTLS/REQUIRETLS advertised inconsistently with the TLS state" else .ok m
+      if bad then .error "C10 STARTTLS/REQUIRETLS advertised inconsistently with the TLS state"
+      else
+        let later := if m.greeted then rs else rs.drop 1
+        .ok { m with greeted := m.greeted || !rs.isEmpty, upgraded := m.upgraded || later.any (·.code == 220) }
   | _ => .ok m
 
 def check10 (cfg : Cfg) (implicit : Bool) (evs : List Ev) : List String :=
